@@ -283,6 +283,14 @@ func TestC14(t *testing.T) {
 		if b, err := hessian.ToBytes(v, nm); err == nil && len(b) > 0 {
 			g.corpus = append(g.corpus, b)
 		}
+		// the same value in a non-canonical rendering (variable-length lists, type refs,
+		// long-form instances, hoisted definitions, chunked strings): more decoder branches
+		if a, perr := zoo.Project(v, nm); perr == nil {
+			opt := refcodec.EncOptions{HoistAnywhere: rapid.Bool().Draw(rt, "hoist"), MaxPadding: rapid.SampledFrom([]int{0, 0, 2, 17}).Draw(rt, "pad")}
+			if b := refcodec.Encode(a, rapidChoices{rt}, opt); len(b) > 0 {
+				g.corpus = append(g.corpus, b)
+			}
+		}
 	})
 	if t.Failed() {
 		return
